@@ -896,8 +896,15 @@ def check_energy(case, rec):
     tol = TOL_E * (1 + cond / 1e4)
     E_prev, worst, worst_up = E0, 0.0, 0.0
     n1 = Ksp.shape[0]
+    # arithmetic noise of the documented corrector itself (a_{n+1} and v_{n+1} are differences of large terms when the step is
+    # tiny or the accelerations huge): measured at every step by evaluating the documented update in double and in extended
+    # precision from the same inputs, and propagated to the next displacement through the next system matrix
+    noise = 0.0
+    da_prev = None
+    LD = np.longdouble
     for k in range(case["nsteps"]):
         dt = case["dts"][k % len(case["dts"])]
+        u_p, v_p, a_p = (np.asarray(g(pt), float).copy() for g in (simu._Get_u_n, simu._Get_v_n, simu._Get_a_n))
         if algo == "newmark" and case["defaults"]:
             simu.Solver_Set_Hyperbolic_Algorithm(dt)  # documented default = average acceleration
         elif algo == "newmark":
@@ -909,6 +916,21 @@ def check_energy(case, rec):
         v = np.asarray(simu._Get_v_n(pt), float)
         E = cs.energy(K, M, u, v)
         S = max(S, 0.5 * float(np.abs(u) @ aK @ np.abs(u)) + 0.5 * float(np.abs(v) @ aM @ np.abs(v)))
+        if algo != "euler_explicit" and u_p.size == u.size:
+            prm_k = cs.effective_params(algo, dt, 0.5, 0.25, 0.5)
+            v64, a64 = cs.solve_updates(algo, prm_k, u_p, v_p, a_p, u)
+            v128, a128 = cs.solve_updates(algo, tuple(LD(x) for x in prm_k), u_p.astype(LD), v_p.astype(LD), a_p.astype(LD), u.astype(LD))
+            dv = np.abs(np.asarray(v64 - v128, float))
+            da = np.abs(np.asarray(a64 - a128, float))
+            noise += float(np.abs(v) @ aM @ dv + 0.5 * dv @ aM @ dv)
+            if da_prev is not None and free.size and not B.shape[0]:
+                # the previous acceleration enters this step's right-hand side: du = A^-1 M da
+                wk = (0.5, 0.0, 2 / dt**2) if algo == "midpoint" else (1.0, 0.0, 4 / dt**2) if algo == "newmark" else (1.0, 0.0, 1 / dt**2)
+                Aff = (wk[0] * K + wk[2] * M)[np.ix_(free, free)]
+                du = np.zeros_like(u)
+                du[free] = np.abs(np.linalg.solve(Aff, (aM @ da_prev)[free]))
+                noise += float(np.abs(u) @ aK @ du + (2.0 / dt) * (np.abs(v) @ aM @ du))
+            da_prev = da
         if k in (0, case["nsteps"] - 1):
             # the library's own energy functional agrees with the harness one
             pad = np.zeros(n1 - N)
@@ -916,12 +938,12 @@ def check_energy(case, rec):
             rec.close(Elib - E, S, TOL_ID, "calc_energy", f"Calc_Energy(K,u)+Calc_Energy(M,v)={Elib!r} vs harness {E!r}", **sig)
         if algo == "euler_implicit":
             worst_up = max(worst_up, (E - E_prev) / S)
-            if not rec.require(E - E_prev <= tol * S, "energy_non_increasing",
+            if not rec.require(E - E_prev <= tol * S + 50.0 * noise, "energy_non_increasing",
                                f"backward Euler increased the energy at step {k}: {E_prev!r} -> {E!r} (E0={E0!r}, dt={dt})", **sig):
                 break
         else:
             worst = max(worst, abs(E - E0) / S)
-            if not rec.require(abs(E - E0) <= tol * S, "energy_conserved",
+            if not rec.require(abs(E - E0) <= tol * S + 50.0 * noise, "energy_conserved",
                                f"{algo}: energy drifted at step {k}: E0={E0!r}, E={E!r}, rel {abs(E - E0) / E0:.3e}, vs scale {abs(E - E0) / S:.3e} > {tol:.1e} "
                                f"(dts={case['dts']}, init={case['init']})", **sig):
                 break
@@ -933,6 +955,7 @@ def check_energy(case, rec):
     rec.label("algo:" + algo, "problem:" + p["kind"], "init:" + case["init"], f"steps:{case['nsteps']}",
               "dt_varies" if len(set(case["dts"])) > 1 else "dt_fixed", "constrained" if free.size < N else "free_free")
     rec.note_max("info:cond", cond)
+    rec.note_max("info:corrector_noise_over_S", noise / S)
     rec.nontrivial(True)
 
 
